@@ -4,9 +4,12 @@ Obligations
   theorems   lean/Cppcheck/Props/C06.lean: alias_ids_refine, alias_refines_scoping (expansion with the undo-log symbol table =
              substitution under lexical scoping, for every program of the modelled language); object_macro_expansion_eq_subst (the macro
              part of the property: object-like macro replacement = substitution, proved for C11)
+  oracle     every generated program, with a static_assert of the expanded type after each declaration, is accepted by g++ (an
+             independent check of what a name denotes: validates `events` / `expandWith`)
   C / P_impl real Tokenizer::simplifyTokens1 (in-process) on a generated program and on the program the Lean model expands
              (aliases substituted, alias declarations dropped): the two simplified token streams and the tokenizer diagnostics must
-             be equal.  thorough: the real `cppcheck` binary on both files reports the same finding ids.
+             be equal.  The real `cppcheck` binary on both files: same finding ids and same --dump facts (values, value types) per token.
+             Macro and explicit-template-instantiation pairs: same finding ids through the real binary (no model).
 """
 import json, os, re
 from .. import core, build_repo
@@ -450,9 +453,18 @@ def gen_template_pair(rng):
     return a, b
 
 
+ASSUMPTIONS = [
+    "alias_refines_scoping is a statement about two specifications (undo-log table vs stack of scopes); cppcheck has no alias table, its behaviour enters only through the tie",
+    "what a name denotes is validated by g++ -std=c++17 -fsyntax-only (static_assert(__is_same(decltype(x), T))) on every generated program, C programs compiled as C++",
+    "templates and macros: sampled CLI pairs only (finding ids), no model",
+    "normalisation: empty declarations `;` at file scope are dropped before token streams / facts are compared",
+]
+
+
 def run(ctx, res):
     rng = ctx.rng
     thorough = ctx.tier == "thorough"
+    res.assumptions = list(ASSUMPTIONS)
     _seen.clear()
     if not os.environ.get("C06_NOPROVE"):          # development switch only
         core.prove(ctx, res, MODULES, THEOREMS)
